@@ -177,3 +177,8 @@ pub fn shift_token_line_stub(
         RECORDED_SHIFT = rule.verif_shift_amount();
     }
 }
+
+/// Character order used by rename_variables to sort generated identifiers (`sort_by`).
+pub fn rename_sort_char(a: char, b: char) -> std::cmp::Ordering {
+    crate::rules::verif_sort_char(a, b)
+}
